@@ -7,7 +7,7 @@
    sizes and all data-member registers are exactly as before (strong guarantee incl. "nothing leaked"). *)
 From Coq Require Import List Arith Lia Bool ZArith.
 From MomoCommon Require Import GenPrelude.
-From C04 Require Gen_OpenN1_exn Gen_Open2N2_exn OpenExn Gen_LimP4_exn LimP4Exn OpenRefine Gen_ArrReset_exn ArrResetExn.
+From C04 Require Gen_OpenN1_exn Gen_Open2N2_exn OpenExn Gen_LimP4_exn LimP4Exn OpenRefine Gen_ArrReset_exn ArrResetExn Gen_C04Facts FactsTie Gen_XCheckH Gen_XCheckT XCheck.
 From C04 Require Import Effects ObjMgr ArrayData Ctor KeyValue Tree Relocator Replace PlanWf MultiMap SetCount HashGrow Shifter.
 Import ListNotations.
 
@@ -718,3 +718,68 @@ Theorem gen_array_pvreset_throwing :
     Gen_ArrReset_exn.pvReset items cnt cap count true ia clob a = GenPrelude.Ok (false, items, cnt, cap).
 Proof. exact ArrResetExn.pvReset_throwing. Qed.
 Print Assumptions gen_array_pvreset_throwing.
+
+(* ---- reverted-fix round: theorems stated AT facts / definitions regenerated from the current headers --------------------------------
+   806b9fe (HashSet / TreeSet copy and initializer-list constructors), 91ea186 (DataTable::pvFill): the constructor delegates (so the
+   destructor runs after its catch block) and the catch block resets the object after destroying; the model flag is computed from the
+   generated statement list, and the resource-machine constructor run on EVERY failure schedule of a 3-item source never double-destroys
+   (Stuck), leaks nothing and leaves the source alone.  The same model with the pre-fix catch block is refuted. *)
+Theorem hashset_copy_ctors_at_current_headers :
+  Gen_C04Facts.hashset_copy_delegates = true /\ Gen_C04Facts.hashset_ilist_delegates = true /\
+  FactsTie.ctor_all_ok (FactsTie.catch_resets FactsTie.n_pvDestroy Gen_C04Facts.hashset_copy_catch) = true /\
+  FactsTie.ctor_all_ok (FactsTie.catch_resets FactsTie.n_pvDestroy Gen_C04Facts.hashset_ilist_catch) = true.
+Proof. exact FactsTie.hashset_ctors_at_generated. Qed.
+Print Assumptions hashset_copy_ctors_at_current_headers.
+
+Theorem treeset_copy_ctors_at_current_headers :
+  Gen_C04Facts.treeset_copy_delegates = true /\ Gen_C04Facts.treeset_ilist_delegates = true /\
+  FactsTie.ctor_all_ok (FactsTie.catch_resets FactsTie.n_pvDestroy Gen_C04Facts.treeset_copy_catch) = true /\
+  FactsTie.ctor_all_ok (FactsTie.catch_resets FactsTie.n_pvDestroy Gen_C04Facts.treeset_ilist_catch) = true.
+Proof. exact FactsTie.treeset_ctors_at_generated. Qed.
+Print Assumptions treeset_copy_ctors_at_current_headers.
+
+Theorem datatable_fill_at_current_headers :
+  FactsTie.ctor_all_ok (FactsTie.catch_resets FactsTie.n_pvDestroyRaws Gen_C04Facts.datatable_fill_catch) = true.
+Proof. exact FactsTie.datatable_fill_at_generated. Qed.
+Print Assumptions datatable_fill_at_current_headers.
+
+Theorem delegating_ctor_without_reset_refuted : FactsTie.ctor_all_ok false = false.
+Proof. exact FactsTie.ctor_all_ok_prefix_refuted. Qed.
+Print Assumptions delegating_ctor_without_reset_refuted.
+
+(* 84c9298: one row of HashMultiMap's copy constructor -- temporary ValueArray, Insert in a try block, handler = valueArray.Clear(); throw *)
+Theorem multimap_copy_row_at_current_headers :
+  Gen_C04Facts.multimap_copy_row = FactsTie.multimap_row_expected /\
+  Gen_C04Facts.multimap_copy_try = FactsTie.multimap_try_expected /\
+  FactsTie.row_all_ok (FactsTie.catch_clears FactsTie.n_valueArray Gen_C04Facts.multimap_copy_catch) = true.
+Proof. exact FactsTie.multimap_row_at_generated. Qed.
+Print Assumptions multimap_copy_row_at_current_headers.
+
+Theorem multimap_copy_row_without_clear_refuted : FactsTie.row_all_ok false = false.
+Proof. exact FactsTie.row_all_ok_not_clearing_refuted. Qed.
+Print Assumptions multimap_copy_row_without_clear_refuted.
+
+(* b307610: GENERATED pvExtraCheck (configuration after props/C10): a functor throwing inside the debug-only check makes it answer true, hence a
+   committed operation followed by MOMO_EXTRA_CHECK is the operation itself (no abort = no Stuck); answering false would abort *)
+Theorem hash_extra_check_never_aborts_committed_op :
+  forall A (m : M A) pos_eqb deref find_ key_ pos s,
+    XCheck.with_extra_check m (Gen_XCheckH.pvExtraCheck true pos_eqb deref find_ key_ pos) s = m s.
+Proof. exact XCheck.hash_checked_op_is_op. Qed.
+Print Assumptions hash_extra_check_never_aborts_committed_op.
+
+Theorem tree_extra_check_never_aborts_committed_op :
+  forall A (m : M A) it_neqb it_begin it_end it_prev it_next is_ordered_ iter s,
+    XCheck.with_extra_check m (Gen_XCheckT.pvExtraCheck true it_neqb it_begin it_end it_prev it_next is_ordered_ iter) s = m s.
+Proof. exact XCheck.tree_checked_op_is_op. Qed.
+Print Assumptions tree_extra_check_never_aborts_committed_op.
+
+Theorem extra_check_false_would_abort :
+  forall A (m : M A) s a s', m s = (Effects.Ok a, s') -> XCheck.with_extra_check m false s = (Effects.Stuck, s').
+Proof. exact XCheck.with_extra_check_false_aborts. Qed.
+Print Assumptions extra_check_false_would_abort.
+
+Theorem hash_extra_check_is_the_comparison :
+  forall pos_eqb deref find_ key_ pos,
+    Gen_XCheckH.pvExtraCheck false pos_eqb deref find_ key_ pos = pos_eqb pos (find_ (key_ (deref pos))).
+Proof. exact XCheck.hash_xcheck_not_vacuous. Qed.
+Print Assumptions hash_extra_check_is_the_comparison.
